@@ -363,8 +363,8 @@ def judge_case(ctx, res):
         ctx.nontriv({"schema": schema, "ops": wit["ops"]})
 
 
-def make_case(cid, rng, schema, n_tracks, n_ops, first_id=None, twin=False, no_perf_row=False):
-    ops, metas = GH.gen_setter_history(rng, schema, n_tracks, n_ops, first_id=first_id, no_perf_row=no_perf_row)
+def make_case(cid, rng, schema, n_tracks, n_ops, first_id=None, twin=False, no_perf_row=False, foreign_flags=False):
+    ops, metas = GH.gen_setter_history(rng, schema, n_tracks, n_ops, first_id=first_id, no_perf_row=no_perf_row, foreign_flags=foreign_flags)
     if twin:
         # a second library of the same version with as many tracks (so that the track ids coincide), created right after
         # the first and never touched again
@@ -392,7 +392,12 @@ def run(ctx):
             norow = (k % 4 == 3) and not is_v2(schema)
             if norow:
                 ctx.bump("histories_with_a_track_without_performance_row")
-            cases.append(make_case("c%d" % n, ctx.rng, schema, 2 + (k % 2), 20 + (k % 3) * 10, first, twin=(k % 6 == 1), no_perf_row=norow))
+            # one history in three works on tracks whose Engine-only columns (grid lock, play state, import markers) are set
+            ff = k % 3 == 2
+            if ff:
+                ctx.bump("histories_on_tracks_with_engine_only_columns_set")
+            cases.append(make_case("c%d" % n, ctx.rng, schema, 2 + (k % 2), 20 + (k % 3) * 10, first, twin=(k % 6 == 1), no_perf_row=norow,
+                                   foreign_flags=ff))
             n += 1
         # many tracks side by side (row ids with more than one digit): the frame condition is then judged over 13-40 bystanders
         for k in range(1 if ctx.tier == "quick" else 12):
